@@ -27,31 +27,32 @@ Proof.
 Qed.
 
 (* the acting session's secret is long enough for generateCaptchaURL's s.auth[:8] *)
-Definition auth_ok (sv : server) (k : N * N) : Prop :=
-  forall s, sv_sessions sv !! k = Some s -> 8 <= slen (s_auth s).
-Lemma flags_same_auth sv sv' k : flags_same sv sv' -> auth_ok sv k -> auth_ok sv' k.
+Definition auth_ok (sv : server) : Prop :=
+  forall k s, sv_sessions sv !! k = Some s -> snd k = 0%N -> 8 <= slen (s_auth s).
+Lemma flags_same_auth sv sv' : flags_same sv sv' -> auth_ok sv -> auth_ok sv'.
 Proof.
-  intros H A s' Hs'. specialize (H k). rewrite Hs' in H. cbn in H.
+  intros H A k s' Hs' Hk0. specialize (H k). rewrite Hs' in H. cbn in H.
   destruct (sv_sessions sv !! k) as [s|] eqn:Hs; [|discriminate]. cbn in H. injection H as _ _ _ H4 _.
-  rewrite H4. now apply A.
+  rewrite H4. now apply (A k).
 Qed.
 
-(* the acting session, once logged in, has a nickname *)
-Definition login_ok (sv : server) (k : N * N) : Prop :=
-  forall s, sv_sessions sv !! k = Some s -> login_bit s = true.
-Lemma flags_same_login sv sv' k : flags_same sv sv' -> login_ok sv k -> login_ok sv' k.
+(* a session that is logged in has a nickname *)
+Definition login_ok (sv : server) : Prop :=
+  forall k s, sv_sessions sv !! k = Some s -> login_bit s = true.
+Lemma flags_same_login sv sv' : flags_same sv sv' -> login_ok sv -> login_ok sv'.
 Proof.
-  intros H A s' Hs'. specialize (H k). rewrite Hs' in H. cbn in H.
+  intros H A k s' Hs'. specialize (H k). rewrite Hs' in H. cbn in H.
   destruct (sv_sessions sv !! k) as [s|] eqn:Hs; [|discriminate]. cbn in H. injection H as _ _ _ _ H5.
-  rewrite H5. now apply A.
+  rewrite H5. now apply (A k).
 Qed.
 
 Record Good (k : N * N) (sv : server) : Prop := {
   g_inv : InvM sv;
   g_live : live sv k;
   g_disc : Disc k sv;
-  g_auth : auth_ok sv k;
-  g_login : login_ok sv k;
+  g_key0 : snd k = 0%N;
+  g_auth : auth_ok sv;
+  g_login : login_ok sv;
 }.
 
 (* postcondition of handlers that change nothing *)
@@ -295,10 +296,12 @@ Record Fine (k : N * N) (sv : server) : Prop := {
   f_inv : InvM sv;
   f_present : present sv k;
   f_disc : Disc k sv;
+  f_auth : auth_ok sv;
+  f_login : login_ok sv;
 }.
 
 Lemma Good_Fine k sv : Good k sv -> Fine k sv.
-Proof. intros [I L D A Lg]. split; [exact I|now apply live_present|exact D]. Qed.
+Proof. intros [I L D K0 A Lg]. split; [exact I|now apply live_present|exact D|exact A|exact Lg]. Qed.
 
 (* everything the handlers look at besides sessions: unchanged by a session update *)
 Definition rest_same (sv sv' : server) : Prop :=
@@ -307,11 +310,11 @@ Definition rest_same (sv sv' : server) : Prop :=
 
 Lemma Good_flags k sv sv' : Good k sv -> InvM sv' -> flags_same sv sv' -> Good k sv'.
 Proof.
-  intros [I L D A Lg] I' F. split; [exact I'|eapply flags_same_live; eauto|eapply flags_same_Disc; eauto|eapply flags_same_auth; eauto|eapply flags_same_login; eauto].
+  intros [I L D K0 A Lg] I' F. split; [exact I'|eapply flags_same_live; eauto|eapply flags_same_Disc; eauto|exact K0|eapply flags_same_auth; eauto|eapply flags_same_login; eauto].
 Qed.
 Lemma Fine_flags k sv sv' : Fine k sv -> InvM sv' -> flags_same sv sv' -> Fine k sv'.
 Proof.
-  intros [I L D] I' F. split; [exact I'|eapply flags_same_present; eauto|eapply flags_same_Disc; eauto].
+  intros [I L D A Lg] I' F. split; [exact I'|eapply flags_same_present; eauto|eapply flags_same_Disc; eauto|eapply flags_same_auth; eauto|eapply flags_same_login; eauto].
 Qed.
 
 Definition upd_sess_state (k' : N * N) (f : session -> session) (sv : server) : server :=
@@ -394,13 +397,13 @@ Lemma Good_set_operator k sv :
   Good k sv ->
   Good k (upd_sess_state k (fun s => ss_modes (set_mode 111 true) (ss_operator true s)) sv).
 Proof.
-  intros [I L D A Lg]. set (f := fun s => ss_modes (set_mode 111 true) (ss_operator true s)).
+  intros [I L D K0 A Lg]. set (f := fun s => ss_modes (set_mode 111 true) (ss_operator true s)).
   assert (I' : InvM (upd_sess_state k f sv)) by (apply InvM_updSess_same; [solve_same|exact I]).
   destruct L as (s & Hs & Hd).
   assert (Hl : forall k2, sv_sessions (upd_sess_state k f sv) !! k2 = (if bool_decide (k = k2) then f else id) <$> (sv_sessions sv !! k2)).
   { intros k2. unfold upd_sess_state. cbn [sv_sessions set_sessions]. rewrite lookup_upd_sess.
     destruct (bool_decide (k = k2)), (sv_sessions sv !! k2); reflexivity. }
-  split; [exact I'| | | |].
+  split; [exact I'| | |exact K0| |].
   - exists (f s). rewrite Hl, bool_decide_true, Hs by reflexivity. split; [reflexivity|exact Hd].
   - intros k2 s2. rewrite Hl. destruct (sv_sessions sv !! k2) as [s0|] eqn:Hs0; [|discriminate].
     cbn. intros [= <-] Hd2.
@@ -408,8 +411,10 @@ Proof.
     destruct (D _ _ Hs0 Hd0) as [->|(sp & Hsp & Hp)]; [now left|]. right.
     exists (f sp). rewrite Hl, bool_decide_true, Hsp by reflexivity. split; [reflexivity|].
     cbn. apply orb_true_r.
-  - intros s2. rewrite Hl, bool_decide_true, Hs by reflexivity. cbn. intros [= <-]. cbn. now apply A.
-  - intros s2. rewrite Hl, bool_decide_true, Hs by reflexivity. cbn. intros [= <-]. exact (Lg s Hs).
+  - intros k2 s2. rewrite Hl. destruct (sv_sessions sv !! k2) as [s0|] eqn:Hs0; [|discriminate].
+    cbn. intros [= <-] Hk0. specialize (A k2 s0 Hs0 Hk0). destruct (bool_decide (k = k2)); exact A.
+  - intros k2 s2. rewrite Hl. destruct (sv_sessions sv !! k2) as [s0|] eqn:Hs0; [|discriminate].
+    cbn. intros [= <-]. specialize (Lg k2 s0 Hs0). destruct (bool_decide (k = k2)); exact Lg.
 Qed.
 
 Lemma cmd_oper_ok k m sv r : Good k sv -> 2 <= nparams m -> wp (cmd_oper k m) (good_post k) sv r.
@@ -449,7 +454,8 @@ Qed.
 Lemma captcha_url_check_ok k sv r : Good k sv -> wp (captcha_url_check k) (unchanged sv) sv r.
 Proof.
   intros G. unfold captcha_url_check. apply wp_bind. wp_sess_acting G. wp_step.
-  - exfalso. pose proof (g_auth k sv G s Hs) as Ha. apply Nat.ltb_lt in Heqb. lia.
+  - exfalso. pose proof (g_auth k sv G k s Hs (g_key0 k sv G)) as Ha.
+    match goal with Hlt : Nat.ltb _ 8 = true |- _ => apply Nat.ltb_lt in Hlt; lia end.
   - wp_step. reflexivity.
 Qed.
 
@@ -473,7 +479,7 @@ Proof.
       match goal with Hb : is_empty (s_nick s) || _ = false |- _ =>
         apply orb_false_iff in Hb; destruct Hb as [Hb _]; now apply is_empty_false in Hb end. }
     wp_apply wp_updSess_good_at; [solve_same| |].
-    { intros s1 Hs1. pose proof (g_login _ _ G1 s1 Hs1) as Hb. specialize (Hnick1 s1 Hs1).
+    { intros s1 Hs1. pose proof (g_login _ _ G1 k s1 Hs1) as Hb. specialize (Hnick1 s1 Hs1).
       unfold flags. cbn. f_equal. unfold login_bit in *. cbn. rewrite Hb.
       destruct (s_nick s1); [congruence|reflexivity]. }
     match goal with H : _ /\ _ /\ _ |- _ => destruct H as (G2 & _ & _) end.
@@ -514,15 +520,15 @@ Proof.
   intros [] sv2 r2 G2. cbv beta. now apply maybe_login_ok.
 Qed.
 
-Lemma change_nick_good k s nick onlyCaps sv r :
-  Good k sv -> sv_sessions sv !! k = Some s -> s_deleted s = false ->
+Lemma change_nick_good ka k s nick onlyCaps sv r :
+  Good ka sv -> sv_sessions sv !! k = Some s -> s_deleted s = false ->
   valid_nick nick = true ->
   (onlyCaps = true -> nick_to_lower nick = nick_to_lower (s_nick s)) ->
   (onlyCaps = false -> sv_nicks sv !! nick_to_lower nick = None) ->
-  wp (change_nick k nick (nick_to_lower (s_nick s)) onlyCaps) (good_post k) sv r.
+  wp (change_nick k nick (nick_to_lower (s_nick s)) onlyCaps) (good_post ka) sv r.
 Proof.
   intros G Hs Hd Hv Hc Hf. apply wp_change_nick. unfold good_post.
-  eapply Good_flags; [exact G| |apply flags_same_nick; [now apply valid_nick_nonempty|apply G]].
+  eapply Good_flags; [exact G| |apply flags_same_nick; [now apply valid_nick_nonempty|intros s0 Hs0; eapply (g_login _ _ G); eauto]].
   eapply InvM_change_nick; eauto. apply G.
 Qed.
 
@@ -765,28 +771,33 @@ Qed.
 Lemma delete_session_fine k tk t sv r (Q : unit -> server -> rctx -> Prop) :
   Fine k sv -> sv_sessions sv !! tk = Some t -> s_deleted t = false -> (tk = k \/ priv sv k) ->
   (forall sv' r', Fine k sv' -> present sv' tk -> (forall k2, k2 <> tk -> live sv k2 -> live sv' k2) ->
-                  (forall k2, auth_ok sv k2 -> auth_ok sv' k2) -> Q tt sv' r') ->
+                  (priv sv k -> priv sv' k) -> (forall k2, present sv' k2 -> present sv k2) -> Q tt sv' r') ->
   wp (delete_session tk) Q sv r.
 Proof.
-  intros [I P D] Ht Htd Hpriv HQ. eapply wp_delete_session; [exact Ht|]. apply HQ.
+  intros [I P D A Lg] Ht Htd Hpriv HQ.
+  assert (Hpriv' : priv sv k -> priv (delete_state tk t sv) k).
+  { intros (sp & Hsp & Hp). exists ((if bool_decide (tk = k) then ss_deleted true else id)
+       (ss_invited (fun i => i ∖ (list_to_set (emptied_keys (nick_to_lower (s_nick t)) (sv_channels sv)) : gset string)) sp)).
+    rewrite delete_state_sessions, Hsp. split; [reflexivity|]. destruct (bool_decide (tk = k)); exact Hp. }
+  eapply wp_delete_session; [exact Ht|].
+  apply HQ; [| | |exact Hpriv'|intros k2 [s2 Hs2]; rewrite delete_state_sessions in Hs2; unfold present;
+                                destruct (sv_sessions sv !! k2); [now eexists|discriminate]].
   - split.
     + now apply InvM_delete.
     + destruct P as [s Hs]. unfold present. rewrite delete_state_sessions, Hs. now eexists.
     + intros k' s'. rewrite delete_state_sessions. destruct (sv_sessions sv !! k') as [s0|] eqn:Hs0; [|discriminate].
       cbn. intros [= <-] Hd'.
-      assert (Hpriv' : priv sv k -> priv (delete_state tk t sv) k).
-      { intros (sp & Hsp & Hp). exists ((if bool_decide (tk = k) then ss_deleted true else id)
-           (ss_invited (fun i => i ∖ (list_to_set (emptied_keys (nick_to_lower (s_nick t)) (sv_channels sv)) : gset string)) sp)).
-        rewrite delete_state_sessions, Hsp. split; [reflexivity|]. destruct (bool_decide (tk = k)); exact Hp. }
       destruct (decide (tk = k')) as [<-|Hne].
       * destruct Hpriv as [->|Hp]; [now left|right; now apply Hpriv'].
       * rewrite bool_decide_false in Hd' by assumption. cbn in Hd'.
         destruct (D _ _ Hs0 Hd') as [->|Hp]; [now left|right; now apply Hpriv'].
+    + intros k2 s2. rewrite delete_state_sessions. destruct (sv_sessions sv !! k2) as [s0|] eqn:Hs0; [|discriminate].
+      cbn. intros [= <-] Hk0. specialize (A k2 s0 Hs0 Hk0). destruct (bool_decide (tk = k2)); exact A.
+    + intros k2 s2. rewrite delete_state_sessions. destruct (sv_sessions sv !! k2) as [s0|] eqn:Hs0; [|discriminate].
+      cbn. intros [= <-]. specialize (Lg k2 s0 Hs0). destruct (bool_decide (tk = k2)); exact Lg.
   - unfold present. rewrite delete_state_sessions, Ht. now eexists.
   - intros k2 Hne (s2 & Hs2 & Hd2). unfold live. rewrite delete_state_sessions, Hs2.
     eexists. split; [reflexivity|]. rewrite bool_decide_false by congruence. exact Hd2.
-  - intros k2 A s2. rewrite delete_state_sessions. destruct (sv_sessions sv !! k2) as [s0|] eqn:Hs0; [|discriminate].
-    cbn. intros [= <-]. specialize (A s0 Hs0). destruct (bool_decide (tk = k2)); exact A.
 Qed.
 
 Lemma member_key_acting sv k s lc c p :
@@ -849,7 +860,7 @@ Lemma cmd_quit_ok k m sv r : Good k sv -> wp (cmd_quit k m) (fine_post k) sv r.
 Proof.
   intros G. unfold cmd_quit. destruct (g_live _ _ G) as (s & Hs & Hd).
   apply wp_bind. eapply (delete_session_fine k); [apply Good_Fine; exact G|exact Hs|exact Hd|now left|].
-  intros sv1 r1 F1 [s1 Hs1] _ _. apply wp_bind. eapply wp_sessM; [exact Hs1|].
+  intros sv1 r1 F1 [s1 Hs1] _ _ _. apply wp_bind. eapply wp_sessM; [exact Hs1|].
   apply wp_whenM; intros _; [|exact F1].
   wp_step. wp_step. wp_step. wp_step; [eapply rc_common_ok; apply F1|]. repeat wp_step. exact F1.
 Qed.
@@ -866,7 +877,7 @@ Proof.
   match goal with Hk : sv_nicks sv !! _ = Some ?tk |- _ =>
     destruct (i_idx_sound sv (g_inv _ _ G) _ _ Hk) as (_ & t & Ht & Htd & _) end.
   apply wp_bind. eapply (delete_session_fine k); [apply Good_Fine; exact G|exact Ht|exact Htd|right; eapply is_operator_priv; eauto|].
-  intros sv1 r1 F1 [t1 Ht1] _ _. apply wp_bind. eapply wp_sessM; [exact Ht1|].
+  intros sv1 r1 F1 [t1 Ht1] _ _ _. apply wp_bind. eapply wp_sessM; [exact Ht1|].
   wp_step. wp_step. wp_step. wp_step; [eapply rc_common_ok; apply F1|]. repeat wp_step. exact F1.
 Qed.
 
@@ -897,15 +908,19 @@ Proof.
     apply wp_bind. wp_sess_of_index (g_inv _ _ G). repeat wp_step. reflexivity.
 Qed.
 
-Lemma cmd_topic_query_unchanged k ch sv r :
-  Good k sv -> wp (cmd_topic k (IMsg None "TOPIC" [ch])) (unchanged sv) sv r.
+Lemma cmd_topic_query_unchanged_live k ch sv r :
+  InvM sv -> live sv k -> wp (cmd_topic k (IMsg None "TOPIC" [ch])) (unchanged sv) sv r.
 Proof.
-  intros G. unfold cmd_topic. cbn [param m_params nth_error]. wp_step. wp_step. apply wp_bind. wp_sess_acting G.
+  intros I (s & Hs & Hd). unfold cmd_topic. cbn [param m_params nth_error]. wp_step. wp_step. apply wp_bind.
+  eapply wp_sessM; [exact Hs|].
   wp_step. wp_step. cbv zeta. cbn [nparams m_params List.length Nat.eqb trailing last is_empty andb].
   wp_step; [|repeat wp_step; reflexivity].
   wp_step; [repeat wp_step; reflexivity|].
   rewrite andb_false_r. repeat wp_step; reflexivity.
 Qed.
+Lemma cmd_topic_query_unchanged k ch sv r :
+  Good k sv -> wp (cmd_topic k (IMsg None "TOPIC" [ch])) (unchanged sv) sv r.
+Proof. intros G. apply cmd_topic_query_unchanged_live; apply G. Qed.
 
 Definition join_inv (k : N * N) (sv0 : server) : server -> Prop :=
   fun sv => Good k sv /\ sv_nicks sv = sv_nicks sv0.
@@ -937,7 +952,8 @@ Proof.
         match goal with H : good_rest _ _ _ _ _ |- _ => destruct H as (G1 & (Rn & Rc & _) & _) end.
         assert (J1 : join_inv k sv0 sv') by (split; [exact G1|congruence]).
         wp_step.
-        * wp_step. split; [exact J1|split; [exact Rc|left; auto]].
+        * wp_step; [repeat wp_step; split; [exact J1|split; [exact Rc|exact Logic.I]]|].
+          wp_step. split; [exact J1|split; [exact Rc|left; auto]].
         * wp_apply captcha_url_check_ok. match goal with H : unchanged _ _ _ _ |- _ => red in H; subst end.
           repeat wp_step. split; [exact J1|split; [exact Rc|exact Logic.I]].
       + wp_step; [repeat wp_step; split; [exact J|split; [reflexivity|exact Logic.I]]|].
